@@ -110,9 +110,12 @@ def main(tier):
                 targs = [prog.tys(a) for a in t["callee"].get("args", []) if isinstance(a, int)]
                 if targs and targs[0].startswith("crate::node::Node<"):
                     found.append((k, n.rsplit("::", 1)[-1]))
-    want = [("crate::arena::Arena<T>::clear", "clear"), ("crate::arena::Arena<T>::new_node", "push")]
-    run.ob("vec-length", "length-changing calls on Vec<Node<T>>: %s" % sorted(found), sorted(found) == want,
-           key="vec-length|unexpected length-changing call on the slot vector: %s" % sorted(set(found) - set(want)), detail=found, nontrivial="veclen", sample=True)
+    # the slot vector grows only below new_node (push) and is emptied only below clear: the functions E2 analyses (helpers reachable only through them are covered)
+    NEW, CLEAR = "crate::arena::Arena<T>::new_node", "crate::arena::Arena<T>::clear"
+    bad = [(k, m) for (k, m) in found if not ((m == "push" and idx.gated(k, {NEW})) or (m == "clear" and idx.gated(k, {CLEAR})))]
+    kinds_found = {m for _, m in found}
+    run.ob("vec-length", "length-changing calls on Vec<Node<T>> are a push below new_node and a clear below clear(): %s" % sorted(found), not bad and kinds_found == {"push", "clear"},
+           key="vec-length|unexpected length-changing call on the slot vector: %s" % (sorted(bad) or sorted(kinds_found)), detail=found, nontrivial="veclen", sample=True)
     run.extra["written_argument"] = ("J6 (the NextFree chain from first is a simple path ending at last covering exactly the removed, reuseable slots) is preserved because the only "
                                      "list updates are 'append a non-member (x was live) at the tail' and 'remove the head'; each removal calls free_node exactly once (C04) and each "
                                      "recycling pops exactly one member, so no slot is lost or handed out twice; exhausted slots are retired.")
